@@ -211,6 +211,15 @@ StepTSend(s, e) ==
                                 !.pongs = IF d.op = OpPong THEN Append(@, f.payload) ELSE @]
             IN Res(Drain(Obs(s1, <<"send", d.op, d.data>>)), TRUE, "")
 
+\* the transport refused a write (the peer is gone).  A close reply that cannot be written is given up - the peer's
+\* close frame is still reported; any other frame that cannot be written ends the call with the transport's error.
+StepTSendFail(s, e) ==
+  IF ~s.call.active THEN Fail(s, "C07.write_outside_call")
+  ELSE IF s.failed THEN Res(s, TRUE, "")
+  ELSE IF s.due = <<>> \/ Head(s.due).k # "send" THEN Fail(s, "C07.unsolicited_write")
+  ELSE IF Head(s.due).op = OpClose THEN Res(Drain([s EXCEPT !.due = Tail(@)]), TRUE, "")
+  ELSE Res([s EXCEPT !.due = <<DRaise("Transport")>>], TRUE, "")
+
 EndCall(s) == [s EXCEPT !.call = NoCall, !.due = <<>>]
 
 StepRet(s0, e) ==
@@ -251,6 +260,7 @@ StepRaise(s, e) ==
        ELSE IF d.k = "ret" THEN
             Fail(s, IF e.cls = "WebSocketProtocolException" THEN "C05.legal_frame_rejected"
                     ELSE IF e.cls = "WebSocketPayloadException" THEN "C06.well_formed_text_rejected"
+                    ELSE IF d.op = OpClose THEN "C08.peers_close_frame_not_reported"
                     ELSE "C03.spurious_exception")
        ELSE IF d.cls = "Again" THEN      \* would-block: the transport's own error, or reported as a timeout; nothing else
             IF e.terr \/ e.cls = "WebSocketTimeoutException" THEN Res(EndCall(s), TRUE, "") ELSE Fail(s, "C03.spurious_exception")
@@ -273,9 +283,11 @@ Step(s, e) ==
     [] e.ev = "teof"     -> StepEof(SkipOpt(s), e)
     [] e.ev = "terr"     -> StepTErr(SkipOpt(s), e)
     [] e.ev = "tsend"    -> StepTSend(s, e)
+    [] e.ev = "tsendfail" -> StepTSendFail(s, e)
     [] e.ev = "ret"      -> StepRet(s, e)
     [] e.ev = "raise"    -> StepRaise(SkipOpt(s), e)
     [] e.ev = "hang"     -> Fail(s, "C17.no_progress")
+    [] e.ev = "connect_failed" -> Fail(s, "C03.valid_handshake_response_refused")    \* (the head is valid in every scenario that runs the handshake)
     [] e.ev = "tbad"     -> Fail(s, "C08.transport_touched_after_close")
     [] OTHER             -> Fail(s, "harness.unknown_event")
 
